@@ -179,6 +179,37 @@ CLAIMED = {
         technique="native enumeration on the real dialect compilers (bounded) + static definite-return analysis of all @impl functions",
         note="trusted: SQLAlchemy compilers; stand-in DBAPI modules only make engine construction possible; DuckDB / DB2 not importable here; bounded enumeration",
     ),
+    "C01": dict(
+        category="other",
+        text="C01 is the composition of the per-construct cross-backend obligations discharged under C02-C09, C11, C16, C17 (each proves or bounds den_sqlite(compile_sql(c)) == den_polars(compile_polars(c)) for one "
+        "construct under the callee contract of the child pipeline). Decided here: a static dispatch-totality contract (both compilers and Cache.update have a branch for every Verb subclass and recurse into "
+        "nd.child exactly once, so no verb escapes the per-verb obligations), and a bounded stand-in for the composition itself: every pipeline over a 24-step alphabet up to depth 3 (quick) / 4 (thorough), plus "
+        "99 expression steps (window functions x ordering markers x partitioning, aggregates with filter=, case, arithmetic, strings, casts) in 16 context pipelines, on four input tables (nulls and duplicates, empty, "
+        "single row, 120 rows with a 40-row null prefix), is executed on Polars and on in-memory SQLite and compared in names, order and rows (sequence when an arrange on a unique key fixes the order, multiset "
+        "otherwise); only SubqueryError / NotSupportedError may differ.",
+        design_ref="DESIGN.md §5.1",
+        technique="static dispatch-totality contract + bounded native Polars-vs-SQLite differential over enumerated pipelines",
+        note="bounded: step alphabet, depth, four input tables; the unbounded argument is the composition of other properties' obligations and is not re-proved here",
+    ),
+    "C15": dict(
+        category="other",
+        text="Every documented equivalence (mutate/filter split, group_by+arrange+mutate vs partition_by/arrange arguments, drop vs select of the complement, rename and its inverse, slice_head chain vs combined "
+        "slice, inner_join vs cross_join+filter, map vs when/then, is_in vs chained equality, union with swapped operands) is instantiated after 16 context pipelines on three (quick) / four (thorough) input tables on "
+        "Polars and SQLite; both sides are executed and compared. Two structural obligations hold for all data: group_by + mutate hands the backends the same expression tree as an explicit partition_by; drop builds "
+        "the same Select node as select(complement). The unbounded counterparts (map/is_in definitions, slice arithmetic, rename metadata) are obligations of C03, C08, C09/C11.",
+        design_ref="DESIGN.md §5.15",
+        technique="bounded native execution of both sides of each equivalence (Polars and SQLite) + structural node-equality obligations",
+        note="bounded: contexts x input tables; inner_join vs cross_join+filter is compared by column position because the documented suffix rule depends on the columns used in `on`",
+    ),
+    "C20": dict(
+        category="other",
+        text="A static contract on the export verb (every non-frame target has a branch that evaluates `table >> export(Polars())`; ColExpr.export goes through get_expr_as_table) and a bounded native comparison: for "
+        "every pipeline of up to two steps of the C01 alphabet plus null-only, single-cell, empty, one-row and one-column results, on Polars and SQLite, Polars(lazy=True) collected, Pandas, DictOfLists, ListOfDicts, "
+        "Dict, Scalar (guards raise TypeError exactly when documented), ColExpr.export of each visible column, Table(exported frame) and collect() agree with export(Polars()) in names, order, values and dtypes.",
+        design_ref="DESIGN.md §5.20",
+        technique="static branch contract + bounded native comparison of all export targets on enumerated pipelines",
+        note="bounded: pipelines of depth <= 2 x input tables x two backends; polars converters (item, to_dicts, to_dict, to_pandas) trusted",
+    ),
     "C12": dict(
         category="other",
         text="Bounded enumerations on the real code: (type universe) Dtype.from_polars(to_polars(t)) == t and lca_type is an order-independent upper bound without internal errors; (native "
